@@ -14,6 +14,9 @@ package main
 //            `arp --live` (de-duplication on) one per host, at its first sighting, over several passes.
 
 import (
+	"sort"
+	"os/exec"
+	"runtime"
 	"path/filepath"
 	"bytes"
 	"encoding/binary"
@@ -63,7 +66,8 @@ func e2eSigintComponent(r *hx.Run) {
 	if !enterNetlab() {
 		return
 	}
-	const boundMs = 3000
+	boundMs := int64(3000 * machineSlowness())
+	r.Count(fmt.Sprintf("bound-ms:%d", boundMs))
 	r.Rule = "case = one run of the real sx binary per command form (tcp, tcp syn/fin/null/xmas, tcp --flags, udp, icmp, arp, arp --live; tcp syn/udp/icmp on a tun device; socks, elastic, docker on loopback with listeners that accept and stay silent), rate-limited so that it would run for 10 s or more, --json on or off; SIGINT after a drawn delay (0-40 ms: around start-up; 150-1500 ms: in mid scan, before or after the logger's first flush, with results being printed for the forms whose probes are answered on the wire); observed = (ended by itself within 3 s + exit delay of the signal?, panic / fatal error / data race text on stderr?, stdout made of complete lines - JSON objects with --json?); non-trivial class = (command form, link, signal phase, json)"
 	lab := newNetlab()
 	defer lab.close()
@@ -264,7 +268,14 @@ func e2eSigintComponent(r *hx.Run) {
 		}
 	}()
 
-	const par = 8
+	// as many runs side by side as the machine has room for (every sx starts NumCPU packet workers)
+	par := runtime.NumCPU() / 2
+	if par > 8 {
+		par = 8
+	}
+	if par < 1 {
+		par = 1
+	}
 	for i := 0; i < len(runs); i += par {
 		end := i + par
 		if end > len(runs) {
@@ -294,6 +305,32 @@ func e2eSigintComponent(r *hx.Run) {
 
 // exitDelayOf: the --exit-delay of a command line in ms (the default if absent).  After Ctrl-C no delay is owed at
 // all: the bound is generous by that much.
+// machineSlowness: how much slower than an idle development machine process start-up is right now (1 … 3): the
+// median wall time of three `sx --help` runs against 25 ms.  The time bound of e2esigint is "generous": it scales
+// with this, so that a loaded or small machine does not turn scheduling latency into an alarm, while the hangs the
+// bound is there for (a limiter slot of 15 s … 6 min, a read that never returns) stay far beyond it.
+func machineSlowness() float64 {
+	bin := os.Getenv("SX_BIN")
+	if bin == "" {
+		return 1
+	}
+	var ds []time.Duration
+	for i := 0; i < 3; i++ {
+		t0 := time.Now()
+		exec.Command(bin, "--help").Run()
+		ds = append(ds, time.Since(t0))
+	}
+	sort.Slice(ds, func(i, j int) bool { return ds[i] < ds[j] })
+	f := float64(ds[1]) / float64(25*time.Millisecond)
+	if f < 1 {
+		f = 1
+	}
+	if f > 3 {
+		f = 3
+	}
+	return f
+}
+
 func exitDelayOf(args []string) int64 {
 	for i, a := range args {
 		if a == "--exit-delay" && i+1 < len(args) {
@@ -341,9 +378,14 @@ func sigintRun(s *sigRun, boundMs int64) string {
 	}()
 	// a signal sent between fork and exec is taken by the forked copy of the harness, not by sx: the delay counts from
 	// the moment the process IS sx (on a loaded machine the exec can be tens of milliseconds away)
+	// … and not the taskset / sh that execs it (one-CPU and ulimit runs)
 	self, _ := os.Readlink("/proc/self/exe")
 	for t0 := time.Now(); time.Since(t0) < 3*time.Second; time.Sleep(200 * time.Microsecond) {
-		if exe, err := os.Readlink(fmt.Sprintf("/proc/%d/exe", p.cmd.Process.Pid)); err != nil || exe != self {
+		exe, err := os.Readlink(fmt.Sprintf("/proc/%d/exe", p.cmd.Process.Pid))
+		if err != nil {
+			break
+		}
+		if b := filepath.Base(exe); exe != self && b != "taskset" && b != "sh" && b != "dash" && b != "bash" {
 			break
 		}
 	}
